@@ -8,6 +8,7 @@
 package main
 
 import (
+	_ "time/tzdata" // zone rules for the daylight-saving cases (no zone files needed on the host)
 	"flag"
 	"fmt"
 	"os"
